@@ -89,20 +89,20 @@ theorem splitComma_nocomma_append (a b : Bytes) (h : (44 : UInt8) ∉ a) : split
     simp only [List.cons.injEq] at hx
     rw [← hx.1, ← hx.2]
 
-def optElem (x : Bytes) : List Bytes := if x.isEmpty then [] else [x]
+def optElem (a : Bytes) : List Bytes := if a.all isListLead then [] else [strip a]
 
-theorem elements_nil : elements [] = [] := by simp [elements, splitComma, strip, rtrim, ltrim]
+theorem elements_nil : elements [] = [] := by simp [elements, splitComma]
 
-theorem elements_nocomma (a : Bytes) (h : (44 : UInt8) ∉ a) : elements a = optElem (strip a) := by
+theorem elements_nocomma (a : Bytes) (h : (44 : UInt8) ∉ a) : elements a = optElem a := by
   unfold elements optElem
   rw [splitComma_nocomma a h]
-  by_cases he : (strip a).isEmpty = true <;> simp [he]
+  by_cases he : a.all isListLead = true <;> simp [he]
 
 theorem elements_nocomma_append (a b : Bytes) (h : (44 : UInt8) ∉ a) :
-    elements (a ++ 44 :: b) = optElem (strip a) ++ elements b := by
+    elements (a ++ 44 :: b) = optElem a ++ elements b := by
   unfold elements optElem
   rw [splitComma_nocomma_append a b h]
-  by_cases he : (strip a).isEmpty = true <;> simp [he]
+  by_cases he : a.all isListLead = true <;> simp [he]
 
 theorem strip_cons_space (c : UInt8) (s : Bytes) (h : isSpace c = true) : strip (c :: s) = strip s := by
   unfold strip; rw [ltrim_cons_space c s h]
@@ -111,12 +111,14 @@ theorem elements_cons_lead (c : UInt8) (s : Bytes) (h : isListLead c = true) : e
   rcases listLead_cases c h with h44 | hsp
   · subst h44
     unfold elements
-    simp [splitComma, strip, rtrim, ltrim]
+    simp [splitComma]
   · have hc : c ≠ 44 := (space_ne c hsp).2
     obtain ⟨x, t, hx, hcs⟩ := splitComma_cons_other c s hc
     unfold elements
     rw [hcs, hx]
-    simp [strip_cons_space c x hsp]
+    by_cases hxl : x.all isListLead = true
+    · simp [h, hxl]
+    · simp [h, hxl, strip_cons_space c x hsp]
 
 theorem elements_dropWhile_lead (s : Bytes) : elements (s.dropWhile isListLead) = elements s := by
   induction s with
